@@ -148,6 +148,8 @@ def check_property(prop, tier, seed, timeout_s):
                 all_obls.append(o)
     vcgen_s = time.time() - t0
     discharge.discharge(all_obls, timeout_ms=timeout_s * 1000, second_solver=(tier == "thorough"))
+    if os.environ.get("VERIF_SAVE_LADDER_HINTS"):
+        discharge.save_hints(all_obls)
     # vacuity: no reachability point may have contradictory hypotheses
     canaries = [(n, h) for e in engines.values() for (n, h) in e.canary_points]
     can = discharge.check_sat([h for _, h in canaries], 2000 if tier == "quick" else 10000)
